@@ -96,9 +96,9 @@ CLAIMS['C01'] = {
              'a block returned by LLFree::get (any path) is aligned, consists of frames that were all free and inside the managed range (hence disjoint '
              'from every block handed out and not freed), is the target if one was given, and exactly its frames become allocated. '
              'Theorems conc_bitfield_blocks_disjoint / conc_invariant_all_schedules: for ANY number of threads and EVERY schedule of single atomic '
-             'accesses (unbounded), targeted allocations and frees of held blocks by Bitfield::toggle (all orders up to the huge order: single-word '
-             'update, narrow compare-exchange, multi-row with roll-back) never hand out overlapping blocks - an ownership (rely/guarantee) invariant '
-             'preserved by every atomic step.' + PART + 'for the whole allocator (set_first_zeros search, huge counters/markers, tree counters, '
+             'accesses (unbounded), targeted allocations (Bitfield::toggle), searches (set_first_zeros / set_first_zero_rows) and frees of held blocks '
+             '(all orders up to the huge order: single-word update, narrow compare-exchange, multi-row with roll-back) never hand out overlapping blocks - an ownership (rely/guarantee) invariant '
+             'preserved by every atomic step.' + PART + 'for the whole allocator (huge counters/markers, tree counters, '
              'reservations) the all-interleavings statement is not a theorem; that part is explored by scheduler-controlled runs of the real threads '
              '(preemption-bounded DFS + random schedules) whose event traces are replayed on the Lean interleaving semantics.'),
     'note': TB + ' Upper-level theorems hold for configurations satisfying CfgOk (class ids < 8, ordered policy, tree size < 2^19: every configuration of the repository; derived from elementary checks by CfgOk.of_checks); they depend on the C23 theorem (bv_decide axioms) through the lower search.',
